@@ -318,6 +318,28 @@ def _subst_env(node, env):
     return S().visit(_copy.deepcopy(node))
 
 
+def _static_truth(t):
+    """True / False when the test is decided by its own text (`None is None`, `<constructed object> is not None`), else None"""
+    if isinstance(t, ast.Constant):
+        return bool(t.value)
+    if isinstance(t, ast.UnaryOp) and isinstance(t.op, ast.Not):
+        v = _static_truth(t.operand)
+        return None if v is None else not v
+    if isinstance(t, ast.Compare) and len(t.ops) == 1 and isinstance(t.ops[0], (ast.Is, ast.IsNot)) and isinstance(t.comparators[0], ast.Constant) and t.comparators[0].value is None:
+        l = t.left
+        is_none = None
+        if isinstance(l, ast.Constant):
+            is_none = l.value is None
+        elif isinstance(l, (ast.List, ast.Tuple, ast.Dict, ast.Set, ast.ListComp, ast.JoinedStr)):
+            is_none = False
+        elif isinstance(l, ast.Call) and isinstance(l.func, ast.Name) and l.func.id[:1].isupper():
+            is_none = False  # a constructor call yields an object
+        if is_none is None:
+            return None
+        return is_none if isinstance(t.ops[0], ast.Is) else not is_none
+    return None
+
+
 def path_returns(fn, limit=256):
     """Enumerate the ends of a function: [(guards, 'return'|'raise'|'fall', value expr with locals substituted)].
     Loops are entered once (their assignments make the assigned names opaque afterwards); `effects` lists the expression
@@ -368,8 +390,11 @@ def path_returns(fn, limit=256):
             return nxt(env, guards, effects)
         if isinstance(st, ast.If):
             t = _subst_env(st.test, env)
-            run(st.body, env, guards + [(t, True)], effects, nxt)
-            run(st.orelse, env, guards + [(t, False)], effects, nxt)
+            known = _static_truth(t)
+            if known is not False:
+                run(st.body, env, guards + ([(t, True)] if known is None else []), effects, nxt)
+            if known is not True:
+                run(st.orelse, env, guards + ([(t, False)] if known is None else []), effects, nxt)
             return
         if isinstance(st, (ast.For, ast.While)):
             env2 = dict(env)
